@@ -663,6 +663,7 @@ fn calls_of(e: &E, env: &Env, vals: &[u32], out: &mut Vec<usize>) -> u32 {
             out.push(*j);
             vals[*j]
         }
+        E::Cell(c) => env.cells[*c],
         E::BOr(a, b) => calls_of(a, env, vals, out) | calls_of(b, env, vals, out),
         E::BAnd(a, b) => calls_of(a, env, vals, out) & calls_of(b, env, vals, out),
         E::Add(a, b) => (calls_of(a, env, vals, out) + calls_of(b, env, vals, out)) % 4,
@@ -681,11 +682,102 @@ fn calls_of(e: &E, env: &Env, vals: &[u32], out: &mut Vec<usize>) -> u32 {
 
 /// Result of the cyclic reference for every node: value, or which panic class a request of that
 /// node must end in.
+/// every call inside node `q` goes to `q` itself or to a node of lower index, and recursion
+/// happens only in `fix` / `fixjoin` nodes: each cyclic node is a self-loop head on top of final
+/// values, so iterating it ALONE from bottom until two consecutive values agree is exactly what
+/// salsa does — whatever the body looks like (value-dependent branches, untracked reads included)
+pub fn selfloop_only(prog: &Prog) -> bool {
+    fn calls(e: &E, out: &mut Vec<usize>) {
+        match e {
+            E::Call(j) => out.push(*j),
+            E::Add(a, b) | E::Min(a, b) | E::Max(a, b) | E::BOr(a, b) | E::BAnd(a, b) => {
+                calls(a, out);
+                calls(b, out);
+            }
+            E::If(c, a, b) => {
+                calls(c, out);
+                calls(a, out);
+                calls(b, out);
+            }
+            _ => {}
+        }
+    }
+    let mut any_self = false;
+    for (q, (k, e)) in prog.nodes.iter().enumerate() {
+        let mut cs = vec![];
+        calls(e, &mut cs);
+        for j in cs {
+            if j > q {
+                return false;
+            }
+            if j == q {
+                if !matches!(k, Kind::Fix | Kind::FixJoin) {
+                    return false;
+                }
+                any_self = true;
+            }
+        }
+        if matches!(k, Kind::Fb | Kind::NoCyc) {
+            return false;
+        }
+    }
+    any_self
+}
+
+fn selfloop_reference(env: &Env, max_iter: u32) -> Vec<Outcome> {
+    let n = env.prog.nodes.len();
+    let mut vals = vec![0u32; n];
+    let mut out: Vec<Outcome> = vec![];
+    let mut poisoned = vec![false; n];
+    for q in 0..n {
+        let (kind, body) = &env.prog.nodes[q];
+        let mut v = 0u32;
+        let mut it = 0u32;
+        let mut deps = vec![];
+        let res = loop {
+            vals[q] = v;
+            deps.clear();
+            let mut nv = calls_of(body, env, &vals, &mut deps);
+            if !deps.contains(&q) {
+                break Some(nv);
+            }
+            if *kind == Kind::FixJoin {
+                nv |= v;
+            }
+            if nv == v {
+                break Some(v);
+            }
+            it += 1;
+            if it >= max_iter {
+                break None;
+            }
+            v = nv;
+        };
+        // a node that reads a diverging node panics with it
+        let dep_poisoned = deps.iter().any(|d| *d != q && poisoned[*d]);
+        match res {
+            Some(v) if !dep_poisoned => {
+                vals[q] = v;
+                out.push(Outcome::Val(RV::num(v)));
+            }
+            _ => {
+                poisoned[q] = true;
+                vals[q] = 0;
+                out.push(Outcome::PanicTooMany);
+            }
+        }
+    }
+    out
+}
+
 pub fn cyclic_reference(env: &Env, max_iter: u32) -> Vec<Outcome> {
     let n = env.prog.nodes.len();
     let kinds: Vec<Kind> = env.prog.nodes.iter().map(|x| x.0).collect();
     if kinds.iter().any(|k| matches!(k, Kind::Fb)) {
         return fallback_reference(env);
+    }
+    if env.prog.ncells > 0 && selfloop_only(env.prog) {
+        return selfloop_reference(env, max_iter);
     }
     // Kleene iteration from bottom = 0; conditions are input-controlled so the call graph is
     // fixed; all fixpoint kinds converge to the least fixpoint if the bodies are monotone.
@@ -782,7 +874,7 @@ pub fn is_monotone(e: &E) -> bool {
 /// happened in earlier revisions
 pub fn is_monotone_live(e: &E, env: &Env) -> bool {
     match e {
-        E::C(_) | E::In(_) | E::Call(_) => true,
+        E::C(_) | E::In(_) | E::Call(_) | E::Cell(_) => true,
         E::BOr(a, b) | E::BAnd(a, b) => is_monotone_live(a, env) && is_monotone_live(b, env),
         E::If(c, a, b) => match **c {
             E::In(i) => {
@@ -1397,6 +1489,9 @@ pub fn gen_cycle_case(r: &mut Rng) -> Case {
     // 3 non-monotone / diverging (C15)
     let allowed = CYCLE_FLAVOURS.with(|f| f.borrow().clone());
     let flavour = if allowed.is_empty() { [0, 0, 0, 1, 1, 2, 3, 4, 4][r.usize(9)] } else { allowed[r.usize(allowed.len())] };
+    if flavour == 5 {
+        return gen_cycle_untracked_case(r);
+    }
     let nplain = if flavour == 4 { 1 + r.usize(2) } else { 0 };
     for q in 0..n {
         let (kind, body) = match flavour {
@@ -1437,6 +1532,56 @@ pub fn gen_cycle_case(r: &mut Rng) -> Case {
             ops.push(Op::Synth(r.below(3) as u8));
         }
     }
+    Case { prog, init, ops }
+}
+
+/// flavour 5 (C04 inside cycles): self-loop fixpoint heads that read an untracked cell in SOME
+/// iterations only (the read sits in a branch steered by the provisional value), in every
+/// iteration, or never; plain / fixpoint readers on top; histories change cells (followed by a new
+/// revision of any durability) and inputs.  `selfloop_reference` is exact for these programs.
+fn gen_cycle_untracked_case(r: &mut Rng) -> Case {
+    let mut prog = Prog::empty();
+    prog.ninputs = 2 + r.usize(2);
+    prog.ncells = 1 + r.usize(2);
+    let n = 2 + r.usize(4);
+    for q in 0..n {
+        let cell = || E::Cell(0);
+        let _ = cell;
+        let c = r.usize(prog.ncells);
+        let odd = E::BOr(Box::new(E::Cell(c)), Box::new(E::C(1)));
+        let slf = || Box::new(E::Call(q));
+        let (kind, e) = match if q == 0 { 0 } else { r.below(6) } {
+            // read the cell only while the provisional value is still even (iteration 0)
+            0 => (Kind::Fix, E::If(slf(), slf(), Box::new(odd))),
+            // same with an input mixed in after convergence
+            1 => (Kind::FixJoin, E::If(slf(), Box::new(E::BOr(slf(), Box::new(E::In(r.usize(prog.ninputs))))), Box::new(odd))),
+            // the cell is read in every iteration
+            2 => (Kind::Fix, E::BOr(slf(), Box::new(odd))),
+            // plain reader of an earlier node
+            3 => (Kind::Plain, E::BOr(Box::new(E::Call(r.usize(q))), Box::new(E::C(1 << r.below(8))))),
+            // fixpoint self-loop over an earlier node, no untracked read of its own
+            4 => (Kind::Fix, E::BOr(slf(), Box::new(E::Call(r.usize(q))))),
+            _ => (Kind::Plain, E::BAnd(Box::new(E::Call(r.usize(q))), Box::new(E::In(r.usize(prog.ninputs))))),
+        };
+        prog.nodes.push((kind, e));
+    }
+    let init: Vec<(u32, u8)> = (0..prog.ninputs).map(|_| (r.below(256) as u32, if r.chance(1, 2) { 0 } else { r.below(3) as u8 })).collect();
+    let mut ops = vec![];
+    for _ in 0..3 + r.usize(6) {
+        ops.push(Op::Get(r.usize(n)));
+        match r.below(4) {
+            0 | 1 => {
+                ops.push(Op::Cell(r.usize(prog.ncells), r.below(128) as u32 * 2));
+                ops.push(Op::Synth(r.below(3) as u8));
+            }
+            2 => ops.push(Op::Set(r.usize(prog.ninputs), r.below(256) as u32, None)),
+            _ => ops.push(Op::Synth(r.below(3) as u8)),
+        }
+        if r.chance(1, 2) {
+            ops.push(Op::Get(r.usize(n)));
+        }
+    }
+    ops.push(Op::Get(n - 1));
     Case { prog, init, ops }
 }
 
